@@ -17,6 +17,7 @@ Theorem C12_roundtrip :
     (forall z, ~ In sp (itoa z) /\ ~ In colon (itoa z) /\ ~ In eqsign (itoa z) /\ ~ In percent (itoa z)) ->
   forall (r : creq) (order : list nat),
     wf_mode (c_mode r) -> ~ In sp (c_file r) ->
+    (c_before r <= c_max_before_context)%Z ->     (* larger values are refused with an error (C10) *)
     (forall k, k < 6 -> has k order = true) ->
     regex_compiles (snd (regex_new (c_pattern r) (c_invert r))) = true ->
     let res := srv_write b64dec atoi regex_compiles query_parses sopts0 [] (wire b64enc (command itoa r order)) in
